@@ -4,11 +4,11 @@
 // (setDoXInclude) and DOMLSParser (fgXercesDoXInclude) under ASan+UBSan and compared with the reference expander of c20_ref.hpp.
 //
 // Spaces (--space):
-//   graph   all assignments of a template to each of --files n files (see build_variants); --tset full|small; --rb k = number of
+//   graph   all assignments of a template to each of --files n files (see build_variants); --tset full|mid|small; --rb k = number of
 //           xml:base variants on the root of the non-main files
 //   opts    main document = one include at each of 5 positions x the include-option catalogue x 9 forms of b.xml;
 //           --pairs 1: additionally two includes (first+last child) x catalogue x every 4th catalogue entry x plain b.xml; --pairs 2: two includes
-//           (first+last child; nested+following sibling) x catalogue^2 x 3 forms of b.xml
+//           (first+last child; nested+following sibling) x catalogue^2 x 2 forms of b.xml
 //   defects the minimised reproducers of KNOWN_DEFECTS, evaluated strictly (each is reported as a violation)
 //   leak    catalogue x 2 contexts re-executed under LeakSanitizer with a leak check after every case (the driver re-execs
 //           itself with ASAN_OPTIONS=detect_leaks=1; --leak-selftest leaks one block per case to prove the check is live)
@@ -41,14 +41,14 @@ extern "C" int __lsan_do_recoverable_leak_check();
 // ---------------------------------------------------------------- Xerces side
 // File manager with a per-parse budget of open() calls: the real library needs far fewer opens for any case of the
 // enumerated spaces (counter xerces_opens_over_20); an
-// implementation that does not notice an inclusion loop would recurse until the stack or the 20 s watchdog ends it.  After kOpenBudget
+// implementation that does not notice an inclusion loop would recurse until the stack or the 20 s watchdog ends it.  After `budget`
 // opens every further open fails (the resource "disappears"), which ends the recursion at once, and the case is reported as
 // `runaway-inclusion` - a fast, deterministic stand-in for the hang.
 struct GuardVfs : public Vfs {
-    static const uint64_t kOpenBudget = 60;
+    uint64_t budget = 300;
     uint64_t opens = 0;
     bool tripped = false;
-    bool admit() { if (++opens > kOpenBudget) { tripped = true; return false; } return true; }
+    bool admit() { if (++opens > budget) { tripped = true; return false; } return true; }
     FileHandle fileOpen(const XMLCh* path, bool toWrite, MemoryManager* const mm) override { return admit() ? Vfs::fileOpen(path, toWrite, mm) : 0; }
     FileHandle fileOpen(const char* path, bool toWrite, MemoryManager* const mm) override { return admit() ? Vfs::fileOpen(path, toWrite, mm) : 0; }
 };
@@ -95,6 +95,7 @@ static void collect_bases(DOMNode* n, std::vector<std::string>& out) {
 static void harvest(DOMDocument* doc, XOut& o) {
     if (!doc) return;
     o.hasDoc = true;
+    if (g_guard->tripped) return;  // runaway inclusion: the tree is huge and the case is a violation anyway
     Dump d; dom_dump(doc, d, true); d.flush();
     o.lines = d.lines;
     collect_bases(doc, o.bases);
@@ -327,8 +328,8 @@ static void evaluate(const Case& cs, Ctx& c) {
         }
         if (!x.exc.empty() && api == 0) c.count("xerces_exc:" + x.exc);
         std::vector<std::pair<std::string, std::string>> disc;  // (kind, detail)
-        if (x.runaway) disc.push_back({"runaway-inclusion", "more than " + std::to_string(GuardVfs::kOpenBudget) + " files opened"});
-        if (api == 0) { c.count("xerces_file_opens", x.opens); if (x.opens > 20) c.count("xerces_opens_over_20"); if (x.opens > 40) c.count("xerces_opens_over_40"); }
+        if (x.runaway) disc.push_back({"runaway-inclusion", "more than " + std::to_string(g_guard->budget) + " files opened"});
+        if (api == 0) { c.count("xerces_file_opens", x.opens); if (x.opens > 20) c.count("xerces_opens_over_20"); if (x.opens > 40) c.count("xerces_opens_over_40"); if (x.opens > 100) c.count("xerces_opens_over_100"); if (x.opens > 200) c.count("xerces_opens_over_200"); }
         if (x.exc.compare(0, 8, "FOREIGN:") == 0 || x.exc == "OutOfMemoryException") disc.push_back({"foreign-exception", x.exc});
         std::vector<std::string> got = filter_lines(x.lines);
         bool treeEq = false, baseEq = false;
@@ -412,7 +413,7 @@ static void evaluate(const Case& cs, Ctx& c) {
         for (auto& f : cs.files) printf("  %s: %s\n", f.first.c_str(), f.second.c_str());
         printf("  reference: %s\n    tree: %s\n    bases: %s\n", refErr ? ("ERROR " + joins(ex.errs)).c_str() : "ok", joinv(exp, "  ").c_str(), joinv(ebases, " ").c_str());
         for (int api = 0; api < g_napi; api++)
-            printf("  %s: doc=%d F=%d E=%d W=%d exc=%s\n    errors: %s\n    tree: %s\n    bases: %s\n", API_NAME[api], o[api].hasDoc, o[api].fatals, o[api].errs,
+            printf("  %s: opens=%llu doc=%d F=%d E=%d W=%d exc=%s\n    errors: %s\n    tree: %s\n    bases: %s\n", API_NAME[api], (unsigned long long)o[api].opens, o[api].hasDoc, o[api].fatals, o[api].errs,
                    o[api].warns, o[api].exc.c_str(), joinv(o[api].errors, " ;; ").c_str(), joinv(filter_lines(o[api].lines), "  ").c_str(), joinv(o[api].bases, " ").c_str());
     }
 }
@@ -421,7 +422,8 @@ static void evaluate(const Case& cs, Ctx& c) {
 static int G_files = 2;
 static std::vector<std::vector<FileSpec>> G_var;   // per file
 static std::vector<std::vector<std::vector<int>>> G_mentions;  // per file, per variant: file indices mentioned
-static void build_variants(int n, bool full, int rb) {
+static void build_variants(int n, int tset /*2 full, 1 mid, 0 small*/, int rb) {
+    bool full = tset >= 1;
     G_files = n; G_var.assign(n, {}); G_mentions.assign(n, {});
     std::vector<int> tg;
     for (int i = 0; i < n; i++) tg.push_back(i);
@@ -441,7 +443,7 @@ static void build_variants(int n, bool full, int rb) {
             for (int t : tg) {  // include inside the fallback of a failing include
                 FileSpec fs; fs.tmpl = TP_MIDDLE; Inc q; q.tgt = TG_MISSING; q.fb = FB_NESTED; q.fbTgt = t; q.fbInner = (t == TG_MISSING); fs.inc[0] = q; add(fs, {t});
             }
-            if (full) for (int tp : {TP_TWO_FL, TP_TWO_NS}) for (int t1 : tg) for (int t2 : tg) { FileSpec fs; fs.tmpl = tp; fs.inc[0] = mk(t1); fs.inc[1] = mk(t2); add(fs, {t1, t2}); }
+            if (full) for (int tp : {TP_TWO_FL, TP_TWO_NS}) if (tp == TP_TWO_FL || tset == 2) for (int t1 : tg) for (int t2 : tg) { FileSpec fs; fs.tmpl = tp; fs.inc[0] = mk(t1); fs.inc[1] = mk(t2); add(fs, {t1, t2}); }
         }
     }
 }
@@ -461,7 +463,7 @@ static bool graph_case(uint64_t idx, Case& cs) {  // false: pruned (an unreachab
 // ---------------------------------------------------------------- space: opts
 static std::vector<Inc> O_cat;
 static std::vector<FileSpec> O_bforms;
-static int O_pairs = 0;   // 0 none, 1: first+last child, catalogue x every 4th catalogue entry, plain b; 2: both two-include templates x catalogue^2 x 3 forms of b
+static int O_pairs = 0;   // 0 none, 1: first+last child, catalogue x every 4th catalogue entry, plain b; 2: both two-include templates x catalogue^2 x 2 forms of b (plain, includes c)
 static void build_catalogue() {
     const int A = 0, B = 1, C = 2;
     auto add = [&](Inc q) { O_cat.push_back(q); };
@@ -500,7 +502,7 @@ static void build_catalogue() {
 static const int O_POS[] = {TP_DOCELEM, TP_FIRST, TP_MIDDLE, TP_LAST, TP_NESTED};
 static bool O_singles = true;
 static uint64_t opts_singles() { return O_singles ? 5ULL * O_cat.size() * O_bforms.size() : 0; }
-static uint64_t opts_total() { return opts_singles() + (O_pairs == 2 ? 2ULL * O_cat.size() * O_cat.size() * 3 : O_pairs == 1 ? 1ULL * O_cat.size() * ((O_cat.size() + 3) / 4) : 0); }
+static uint64_t opts_total() { return opts_singles() + (O_pairs == 2 ? 2ULL * O_cat.size() * O_cat.size() * 2 : O_pairs == 1 ? 1ULL * O_cat.size() * ((O_cat.size() + 3) / 4) : 0); }
 static uint64_t leak_total() { return 2ULL * O_cat.size(); }
 static void opts_case(uint64_t idx, Case& cs) {
     FileSpec a; int bform;
@@ -516,7 +518,7 @@ static void opts_case(uint64_t idx, Case& cs) {
         cs.label = "opts pos" + std::to_string(a.tmpl) + " [" + a.inc[0].str() + "] b" + std::to_string(bform);
     } else {
         idx -= opts_singles();
-        if (O_pairs == 2) { bform = (int)(idx % 3); idx /= 3; } else bform = 0;
+        if (O_pairs == 2) { bform = (int)(idx % 2) * 2; idx /= 2; } else bform = 0;  // forms 0 (plain) and 2 (b includes c)
         size_t n2 = O_pairs == 2 ? O_cat.size() : (O_cat.size() + 3) / 4;
         int c2 = (int)(idx % n2); idx /= n2;
         if (O_pairs != 2) c2 *= 4;
@@ -579,7 +581,7 @@ int main(int argc, char** argv) {
     R.name = g_space;
     std::string extra;
     if (g_space == "graph") {
-        build_variants((int)a.num("files", 2), a.str("tset", "full") == "full", (int)a.num("rb", 1));
+        { std::string ts = a.str("tset", "full"); build_variants((int)a.num("files", 2), ts == "full" ? 2 : ts == "mid" ? 1 : 0, (int)a.num("rb", 1)); }
         R.total = graph_total();
         extra = "\"bounds\":{\"files\":" + std::to_string(G_files) + ",\"variants_per_file\":[";
         for (int i = 0; i < G_files; i++) extra += (i ? "," : "") + std::to_string(G_var[i].size());
@@ -602,6 +604,7 @@ int main(int argc, char** argv) {
     }
     if (a.has("strict")) g_strict = a.num("strict") != 0;
     g_napi = (int)a.num("apis", 2);
+    if (a.has("open-budget")) g_guard->budget = (uint64_t)a.num("open-budget");
     if (a.has("list-defects")) { for (auto& d : KNOWN_DEFECTS) printf("%s: %s\n", d.id, d.what); return 0; }
     R.fn = run_case;
     R.describe = [](uint64_t i) { Case cs; if (!make_case(i, cs)) return std::string("\"pruned\""); return case_json(cs); };
